@@ -24,6 +24,7 @@ type genCtx struct {
 	// single transaction has exactly this defect (every kind of badKinds gets its turn across the histories of
 	// a run), so that each hard rule is met alone on the block path, not only mixed with other defects
 	sweepKind      string
+	dupSwept       bool
 	sweepShared    bool
 	sweepSharedPos int // which of the 3x3 position combinations the shared input takes in the sweep block
 	maxtxn         uint64
@@ -198,6 +199,9 @@ func (g *genCtx) makeTxn(n *node, kind string) (coin.Transaction, bool) {
 	if g.avoidPending && r.Chance(60) {
 		k = 1
 	}
+	if strings.HasPrefix(kind, "dup-in") && k < 2 && r.Chance(70) {
+		k = 2 + r.Intn(2) // the duplicate then sits in a non-adjacent position
+	}
 	if k > len(uxs) {
 		k = len(uxs)
 	}
@@ -343,9 +347,14 @@ func (g *genCtx) makeTxn(n *node, kind string) (coin.Transaction, bool) {
 		fake.Body.Coins++
 		spec.ins = append(coin.UxArray{}, ins...)
 		spec.ins[0] = fake
-	case "dup-in":
+	case "dup-in", "dup-in-bal":
+		// the first input once more at the end ([A,A] for one input, [A,B,…,A] otherwise); "-bal": the outputs also pay
+		// out the duplicated coins, so that only the duplicate-input rule stands between the block and new coins
 		spec.ins = append(spec.ins, ins[0])
 		spec.signer = func(i int) cipher.SecKey { return ownerKey(spec.ins[i]) }
+		if kind == "dup-in-bal" {
+			spec.outs[0].Coins += ins[0].Body.Coins
+		}
 	case "wrong-signer":
 		spec.signer = func(i int) cipher.SecKey {
 			j := addrIndex[ins[i].Body.Address]
@@ -435,7 +444,7 @@ func (g *genCtx) makeTxn(n *node, kind string) (coin.Transaction, bool) {
 	return t, true
 }
 
-var badKinds = []string{"nofee", "lowfee", "hours+", "hours+1", "coins+", "coins-", "coins+1", "coins-1", "zerocoin", "dupout", "unknown-in", "dup-in",
+var badKinds = []string{"nofee", "lowfee", "hours+", "hours+1", "coins+", "coins-", "coins+1", "coins-1", "zerocoin", "dupout", "unknown-in", "dup-in", "dup-in-bal",
 	"wrong-signer", "badsig", "unsigned", "precision", "outhours-ovf", "coins-wrap-mid", "coins-wrap-last", "legacy-mint", "outhours-ovf-many", "oversize", "oversize-unknown-in", "oversize-wrong-signer", "oversize-coins+", "oversize-dup-in", "length", "length0", "type", "innerhash", "null-addr", "respend"}
 
 func txHex(t *coin.Transaction) string {
@@ -960,7 +969,15 @@ func (g *genCtx) nextWhen() uint64 {
 func (g *genCtx) execBoth(sb *coin.SignedBlock) {
 	hx := encodeBlock(sb)
 	lenBefore := chainLen(g.node("P"))
+	// one time in four the first attempt fails after the unspent pool has processed the block (injected history fault)
+	// and is rolled back; the block is then executed for real
+	if g.r.Chance(12) {
+		g.emit("execfault P " + hx)
+	}
 	g.emit("exec P " + hx)
+	if g.r.Chance(25) {
+		g.emit("execfault F " + hx)
+	}
 	g.emit("exec F " + hx)
 	if chainLen(g.node("P")) > lenBefore {
 		for _, t := range sb.Body.Transactions {
@@ -1245,6 +1262,17 @@ func (g *genCtx) forged(P, F *node) {
 		if t, ok := g.makeTxn(P, kind); ok {
 			// the same single-defect transaction at pool admission (hard defects must be refused, soft ones flagged)
 			g.emit("injf F " + txHex(&t))
+			sb := forgeBlock(P, coin.Transactions{t}, when, 0, nil, secKey)
+			g.execBoth(&sb)
+			when = g.nextWhen()
+			g.futureTime = when
+		}
+	}
+	if !g.dupSwept && g.r.Chance(50) {
+		// once per history (every other one): an otherwise perfect block whose only transaction names one of its
+		// inputs twice — adjacent or not — and pays the duplicated coins out
+		g.dupSwept = true
+		if t, ok := g.makeTxn(P, "dup-in-bal"); ok {
 			sb := forgeBlock(P, coin.Transactions{t}, when, 0, nil, secKey)
 			g.execBoth(&sb)
 			when = g.nextWhen()
